@@ -342,6 +342,7 @@ func genC12(t *rapid.T) c12Case {
 				src := qs[k%len(qs)]
 				vc.Msa.Rows = append(vc.Msa.Rows, FaRec{ID: fmt.Sprintf("pad%d", k), Seq: src.Seq})
 			}
+			addRecurrentAAChange(t, vc.Anno, vc.Msa)
 		} else {
 			for vc.Form != "sam" {
 				vc.Form = "sam"
@@ -438,4 +439,57 @@ func minInt(a, b int) int {
 		return a
 	}
 	return b
+}
+
+// addRecurrentAAChange appends queries that carry one and the same amino-acid change through different nucleotide changes
+// (codon XY? of a four-fold degenerate family, third base free): the same record text up to its (nuc:...) list, which is what
+// --aggregate has to keep apart or merge the same way on every run.
+func addRecurrentAAChange(t *rapid.T, a Anno, m *MsaCase) {
+	var named []Feat
+	for _, f := range a.Feats {
+		if f.Name != "" && f.nCodons() >= 2 {
+			named = append(named, f)
+		}
+	}
+	if len(named) == 0 {
+		return
+	}
+	refRow := strings.ToUpper(m.refRow(a))
+	col := map[int]int{} // reference position (1-based) -> alignment column
+	p := 0
+	for i := 0; i < len(refRow); i++ {
+		if refRow[i] != '-' {
+			p++
+			col[p] = i
+		}
+	}
+	if p != len(a.Ref) {
+		return
+	}
+	f := named[rapid.IntRange(0, len(named)-1).Draw(t, "recurFeat")]
+	k := rapid.IntRange(0, f.nCodons()-2).Draw(t, "recurCodon")
+	cp := f.codingPositions()[3*k : 3*k+3]
+	onStrand := func(b byte) byte {
+		if f.Strand < 0 {
+			return complementBase(b)
+		}
+		return b
+	}
+	rc := string([]byte{onStrand(a.Ref[cp[0]-1]), onStrand(a.Ref[cp[1]-1]), onStrand(a.Ref[cp[2]-1])})
+	if !isACGT(rc[0]) || !isACGT(rc[1]) || !isACGT(rc[2]) {
+		return
+	}
+	prefix := rapid.SampledFrom([]string{"CT", "GT", "TC", "CC", "AC", "GC", "CG", "GG"}).Draw(t, "recurPrefix")
+	if prefix == rc[:2] || translateCodonModel(prefix+"A") == translateCodonModel(rc) {
+		return
+	}
+	mk := func(third byte) string {
+		b := []byte(refRow)
+		b[col[cp[0]]], b[col[cp[1]]], b[col[cp[2]]] = onStrand(prefix[0]), onStrand(prefix[1]), onStrand(third)
+		return string(b)
+	}
+	other := "ACGT"[(strings.IndexByte("ACGT", rc[2])+1+rapid.IntRange(0, 2).Draw(t, "recurThird"))%4]
+	for i := 0; i < 3; i++ {
+		m.Rows = append(m.Rows, FaRec{ID: fmt.Sprintf("recurA%d", i), Seq: mk(rc[2])}, FaRec{ID: fmt.Sprintf("recurB%d", i), Seq: mk(other)})
+	}
 }
